@@ -15,6 +15,11 @@ S3  concurrent histories with eviction pressure or failures under a finite maxsi
     F3 cannot explain stay strict; the F3-explainable symptoms (internal KeyError,
     overlapping executions of one key, retention above maxsize, stale token) are attributed
     to F3 only if the history shows the F3 precondition before the symptom.
+S4  phased histories: a concurrent warm-up on <= maxsize keys without failures (no eviction
+    possible, so F3 is out of play; waiters are served by in-flight computations), then
+    sequential calls that force evictions: which calls execute must agree with a reference
+    LRU whose recency order is the warm-up's order of USE, judged only when that order is
+    unambiguous (A's last call started after every call of B had returned).
 """
 
 from __future__ import annotations
@@ -242,7 +247,7 @@ def gen_conc(rng: random.Random, cfgs: list[str]) -> dict:
 
         calls.append({"key": rng.randrange(nkeys), "delay": rng.randint(0, 5),
                       "work": rng.randint(0, 3), "fail": fail, "cancel": cancel,
-                      "mode": rng.choice(["scope", "scope", "native"])})  # fmt: skip
+                      "mode": rng.choice(["scope", "scope", "native", "native-in-group"])})  # fmt: skip
 
     ttl = rng.choice([None, None, None, 3])
     return {"stratum": "conc", "cfg": rng.choice(cfgs), "maxsize": maxsize, "nkeys": nkeys,
@@ -496,11 +501,165 @@ def execute_conc(case: dict) -> dict:
     return out
 
 
+# ---------------------------------------------------------------------------------------
+# S4: phased -- concurrent warm-up without eviction, then sequential eviction pressure
+# ---------------------------------------------------------------------------------------
+def gen_s4(rng: random.Random, cfgs: list[str]) -> dict:
+    ms = rng.choice([2, 2, 3])
+    nk1 = rng.randint(2, ms)
+    calls = [{"key": rng.randrange(nk1), "delay": rng.randint(0, 5), "work": rng.randint(1, 4)}
+             for _ in range(rng.randint(3, 7))]  # fmt: skip
+    seq = [rng.randrange(ms + 2) for _ in range(rng.randint(2, 8))]
+    return {"stratum": "S4", "cfg": rng.choice(cfgs), "maxsize": ms, "calls": calls, "seq": seq,
+            "always_checkpoint": rng.random() < 0.3}  # fmt: skip
+
+
+def s4_family():  # noqa: ANN201
+    """a waiter served by an in-flight computation of K while other keys are used in between,
+    then one new key: the least recently USED key must go, not K"""
+    for cfg in ("stock", "eager"):
+        for ms in (2, 3):
+            for work in (3, 5):
+                for dw in range(1, work + 1):  # the waiter joins K's computation at cycle dw
+                    for d2 in range(0, work + 2):  # another key is used around that time
+                        calls = [{"key": 0, "delay": 0, "work": work},
+                                 {"key": 1, "delay": d2, "work": 1},
+                                 {"key": 0, "delay": dw, "work": 1}]  # fmt: skip
+                        if ms == 3:
+                            calls.append({"key": 2, "delay": 0, "work": 1})
+
+                        for seq in ([ms, 0, 1], [ms, 1, 0], [0, ms, 1, ms + 1, 0]):
+                            yield {"stratum": "S4", "cfg": cfg, "maxsize": ms, "calls": calls,
+                                   "seq": seq, "always_checkpoint": False}  # fmt: skip
+
+
+def execute_s4(case: dict) -> dict:
+    import anyio
+    from anyio.functools import lru_cache
+    from anyio.lowlevel import checkpoint
+
+    viol: list = []
+    out: dict = {"viol": viol, "windows": {}, "nontrivial": False}
+    trace: list = []
+    ms = case["maxsize"]
+
+    def window(name: str) -> None:
+        out["windows"][name] = out["windows"].get(name, 0) + 1
+
+    async def main() -> None:
+        seq = [0]
+        execs: list = []
+        works: dict = {}
+
+        def ev(*a) -> int:  # noqa: ANN002
+            seq[0] += 1
+            trace.append([seq[0], *map(str, a)])
+            return seq[0]
+
+        @lru_cache(maxsize=ms, always_checkpoint=case["always_checkpoint"])
+        async def fn(k):  # noqa: ANN001, ANN202
+            execs.append(k)
+            ev("exec", k)
+            for _ in range(works.get(k, [1]).pop(0) if works.get(k) else 1):
+                await checkpoint()
+
+            return (k, len(execs))
+
+        spans: dict = {}  # key -> list of (start seq, end seq)
+        served: dict = {}
+
+        async def caller(c: dict) -> None:
+            for _ in range(c["delay"]):
+                await checkpoint()
+
+            works.setdefault(c["key"], []).append(c["work"])
+            n0 = len(execs)
+            s0 = ev("call", c["key"])
+            tok = await fn(c["key"])
+            spans.setdefault(c["key"], []).append((s0, ev("ret", c["key"], tok)))
+            if len(execs) == n0 and tok[0] == c["key"]:
+                served[c["key"]] = True
+
+            if tok[0] != c["key"]:
+                viol.append(("wrong-value-for-key", {"key": c["key"], "tok": tok}))
+
+        async with anyio.create_task_group() as tg:
+            for c in case["calls"]:
+                tg.start_soon(caller, c)
+
+        for k in spans:
+            if execs.count(k) != 1:
+                viol.append(("key-computed-twice-although-retained",
+                             {"key": k, "executions": execs.count(k)}))  # fmt: skip
+                return
+
+        # recency order of the warm-up, if it is unambiguous: A is more recently used than B
+        # iff A's latest call STARTED after every call of B had returned
+        keys = list(spans)
+
+        def newer(a, b) -> bool:  # noqa: ANN001
+            return max(s for s, _ in spans[a]) > max(e for _, e in spans[b])
+
+        order = sorted(keys, key=lambda k: max(e for _, e in spans[k]))
+        if not all(newer(order[i + 1], order[i]) for i in range(len(order) - 1)):
+            window("s4_ambiguous_recency")
+            return
+
+        window("s4_judged")
+        if any(len(v) > 1 for v in spans.values()):
+            out["nontrivial"] = True
+            window("s4_waiter_served_by_inflight_call")
+
+        ref = RefLRU(ms, False, None)
+        for k in order:
+            ref.call(k, 0.0)
+
+        for k in case["seq"]:
+            n0 = len(execs)
+            must = ref.call(k, 0.0)
+            try:
+                tok = await fn(k)
+            except BaseException as e:  # noqa: BLE001
+                viol.append(("internal-error", {"exc": repr(e), "key": k}))
+                return
+
+            executed = len(execs) > n0
+            ev("seq-call", k, "exec" if executed else "hit")
+            if executed != must:
+                viol.append(("s4:eviction-order-differs-from-LRU",
+                             {"key": k, "executed": executed, "reference_executes": must,
+                              "warmup_recency_oldest_first": order}))  # fmt: skip
+                return
+
+            if tok[0] != k:
+                viol.append(("wrong-value-for-key", {"key": k, "tok": tok}))
+
+        r = _retained(fn)
+        if r is not None and r > ms:
+            viol.append(("retention-above-maxsize", {"retained": r, "maxsize": ms}))
+
+    try:
+        run(main, config=case["cfg"])
+    except Deadlock:
+        viol.append(("deadlock", {}))
+    except BusyLoop:
+        viol.append(("busy-loop", {}))
+
+    out["sig"] = sig_of(["S4", ms, [t[1:] for t in trace]])
+    out["log_tail"] = trace[-40:]
+    out["viol"] = [(c, d, None) for c, d in viol]
+    out["stratum"] = "S4"
+    return out
+
+
 def execute(case: dict) -> dict:
     if case["stratum"] == "S1":
         r = execute_s1(case)
         r["stratum"] = "S1"
         return r
+
+    if case["stratum"] == "S4":
+        return execute_s4(case)
 
     return execute_conc(case)
 
@@ -521,6 +680,11 @@ def f3_witness_cases():  # noqa: ANN201
 def all_cases(tier: str, seed: int):  # noqa: ANN201
     cfgs = ["stock", "eager"]
     yield from f3_witness_cases()
+    yield from s4_family()
+    rng4 = random.Random(seed * 4001 + 4)
+    for _ in range(8000 if tier == "thorough" else 800):
+        yield gen_s4(rng4, cfgs)
+
     rng = random.Random(seed * 5003 + 20)
     n = 40000 if tier == "thorough" else 5000
     for i in range(n):
@@ -572,7 +736,7 @@ def replay(case: dict, col) -> None:  # noqa: ANN001
 
 
 def finish(col, tier: str) -> None:  # noqa: ANN001
-    for k in ("stratum:S1", "stratum:S2", "stratum:S3", "window:same_key_overlap",
-              "window:different_key_overlap"):  # fmt: skip
+    for k in ("stratum:S1", "stratum:S2", "stratum:S3", "stratum:S4", "window:same_key_overlap",
+              "window:different_key_overlap", "window:s4_waiter_served_by_inflight_call"):  # fmt: skip
         if not col.counters.get(k):
             col.inconclusive_because(f"stratum/window never reached: {k}")
